@@ -154,8 +154,7 @@ Lemma step_other_pin s o k :
   lookup k (ana (fst (step s o))) = lookup k (ana s).
 Proof.
   intro Hne. destruct o as [p m|p v|p v|p|p]; cbn [op_pin] in Hne; cbn [step].
-  - destruct (lookup (normalise p) (dig s)); [|destruct (is_pullup m)]; cbn;
-      rewrite ?(lookup_store_other _ _ _ _ Hne); auto.
+  - cbn. rewrite (lookup_store_other _ _ _ _ Hne). auto.
   - cbn. rewrite (lookup_store_other _ _ _ _ Hne). auto.
   - destruct (analog_of v); cbn; rewrite ?(lookup_store_other _ _ _ _ Hne); auto.
   - cbn. auto.
@@ -188,39 +187,31 @@ Proof. cbn. auto. Qed.
 
 (* ------------------------------------------- state <-> history relation *)
 
+(* the digital dict holds exactly the levels written with digital_write (pin_mode never
+   touches it), the mode dict the current mode, the analog dict the last accepted value *)
 Record rel (k : pin) (s : core) (h : hist) : Prop := mkRel {
   rel_dig : lookup k (dig s) =
-            match h_dw h with
-            | Some b => Some (b2z b)
-            | None => if h_stale h then Some HIGH else None
-            end;
+            match h_dw h with Some b => Some (b2z b) | None => None end;
   rel_modes : lookup k (modes s) = h_mode h;
-  rel_ana : lookup k (ana s) = h_aw h;
-  rel_stale : mode_is_pullup (h_mode h) = true -> h_dw h = None -> h_stale h = true
+  rel_ana : lookup k (ana s) = h_aw h
 }.
 
 Lemma rel_init k : rel k init hist0.
-Proof. constructor; cbn; auto; discriminate. Qed.
+Proof. constructor; reflexivity. Qed.
 
 Ltac rel_fin :=
   constructor;
-  cbn [h_dw h_aw h_mode h_stale dig modes ana fst mode_is_pullup orb];
-  rewrite ?lookup_store_same; auto; try discriminate.
+  cbn [h_dw h_aw h_mode dig modes ana fst];
+  rewrite ?lookup_store_same; auto.
 
 Lemma rel_step k s h o : rel k s h -> rel k (fst (step s o)) (hstep k h o).
 Proof.
-  intros [Hd Hm Ha Hs]. unfold hstep.
+  intros [Hd Hm Ha]. unfold hstep.
   destruct (pin_eqb (normalise (op_pin o)) k) eqn:E.
   - apply pin_eqb_eq in E.
     destruct o as [p m|p v|p v|p|p]; cbn [op_pin] in E; cbn [step]; subst k.
-    + (* pin_mode *)
-      rewrite Hd. destruct (h_dw h) as [b|] eqn:Edw.
-      * rel_fin; rewrite ?Edw; auto.
-      * destruct (h_stale h) eqn:Est.
-        -- rel_fin; rewrite ?Edw; auto.
-        -- destruct (is_pullup m) eqn:Ep.
-           ++ rel_fin; rewrite ?Edw; auto.
-           ++ rel_fin; rewrite ?Edw, ?Ep; auto; try discriminate.
+    + (* pin_mode: only the mode dict changes *)
+      rel_fin.
     + (* digital_write *)
       rel_fin; destruct (truthy v); reflexivity.
     + (* analog_write *)
@@ -231,7 +222,7 @@ Proof.
     + constructor; auto.
   - apply pin_eqb_neq in E.
     destruct (step_other_pin s o k E) as (Hm' & Hd' & Ha').
-    constructor; [rewrite Hd'|rewrite Hm'|rewrite Ha'|]; auto.
+    constructor; [rewrite Hd'|rewrite Hm'|rewrite Ha']; auto.
 Qed.
 
 Lemma rel_exec_from k ops : forall s h, rel k s h -> rel k (exec_from s ops) (fold_left (hstep k) ops h).
@@ -243,27 +234,28 @@ Qed.
 Lemma rel_exec k ops : rel k (exec ops) (history k ops).
 Proof. apply rel_exec_from. apply rel_init. Qed.
 
-(* exact description of what the code returns, in terms of the history alone *)
+(* the three dicts, key by key, in terms of the history alone *)
+Lemma dicts_char ops k :
+  lookup k (dig (exec ops)) =
+    match h_dw (history k ops) with Some b => Some (b2z b) | None => None end /\
+  lookup k (modes (exec ops)) = h_mode (history k ops) /\
+  lookup k (ana (exec ops)) = h_aw (history k ops).
+Proof. destruct (rel_exec k ops) as [Hd Hm Ha]. auto. Qed.
+
+(* exact description of what the code returns, in terms of the history alone: the
+   reference memory semantics of the property, for every history and every pin *)
 Lemma dread_char ops p :
-  dread (exec ops) p =
-  let h := history (normalise p) ops in
-  match h_dw h with
-  | Some b => b2z b
-  | None => if h_stale h then HIGH else LOW
-  end.
+  dread (exec ops) p = ref_dread (history (normalise p) ops).
 Proof.
-  destruct (rel_exec (normalise p) ops) as [Hd Hm Ha Hs].
-  unfold dread. cbn zeta. rewrite Hd, Hm.
+  destruct (rel_exec (normalise p) ops) as [Hd Hm Ha].
+  unfold dread, ref_dread, mode_is_pullup. rewrite Hd, Hm.
   destruct (h_dw (history (normalise p) ops)) as [b|]; [reflexivity|].
-  destruct (h_stale (history (normalise p) ops)) eqn:Est; [reflexivity|].
-  destruct (h_mode (history (normalise p) ops)) as [m|] eqn:Em; [|reflexivity].
-  destruct (is_pullup m) eqn:Ep; [|reflexivity].
-  cbn in Hs. rewrite Ep in Hs. specialize (Hs eq_refl eq_refl). discriminate.
+  destruct (h_mode (history (normalise p) ops)) as [m|]; reflexivity.
 Qed.
 
 Lemma aread_char ops p : aread (exec ops) p = ref_aread (history (normalise p) ops).
 Proof.
-  destruct (rel_exec (normalise p) ops) as [Hd Hm Ha Hs].
+  destruct (rel_exec (normalise p) ops) as [Hd Hm Ha].
   unfold aread, ref_aread. rewrite Ha. reflexivity.
 Qed.
 
@@ -274,7 +266,7 @@ Lemma read_your_writes_hist ops p :
   aread (exec ops) p = ref_aread (history (normalise p) ops).
 Proof.
   split; [|apply aread_char].
-  intros b H. rewrite dread_char. cbn zeta. rewrite H. reflexivity.
+  intros b H. rewrite dread_char. unfold ref_dread. rewrite H. reflexivity.
 Qed.
 
 Definition not_dwrite_to (k : pin) (o : op) : Prop :=
@@ -313,7 +305,7 @@ Lemma read_your_writes_digital pre post p q v :
   Forall (not_dwrite_to (normalise p)) post ->
   dread (exec (pre ++ DWrite p v :: post)) q = if truthy v then HIGH else LOW.
 Proof.
-  intros Hq Hpost. rewrite dread_char. cbn zeta. rewrite Hq.
+  intros Hq Hpost. rewrite dread_char. unfold ref_dread. rewrite Hq.
   unfold history. rewrite fold_left_app. cbn [fold_left].
   rewrite (hist_keep_dw _ _ _ Hpost).
   unfold hstep at 1. cbn [op_pin]. rewrite pin_eqb_refl. cbn. destruct (truthy v); reflexivity.
@@ -359,7 +351,7 @@ Qed.
 Lemma ana_ok_step s o : ana_ok s -> ana_ok (fst (step s o)).
 Proof.
   unfold ana_ok. intro H. destruct o as [p m|p v|p v|p|p]; cbn [step].
-  - destruct (lookup (normalise p) (dig s)); [|destruct (is_pullup m)]; exact H.
+  - exact H.
   - exact H.
   - destruct (analog_of v) as [z|] eqn:E; cbn; [|exact H].
     apply Forall_store; [cbn; apply (analog_of_range v); exact E|exact H].
@@ -390,66 +382,93 @@ Qed.
 
 Lemma digital_levels ops p : dread (exec ops) p = LOW \/ dread (exec ops) p = HIGH.
 Proof.
-  rewrite dread_char. cbn zeta.
-  destruct (h_dw _) as [[|]|]; cbn; auto. destruct (h_stale _); auto.
+  rewrite dread_char. unfold ref_dread.
+  destruct (h_dw _) as [[|]|]; cbn; auto. destruct (mode_is_pullup _); auto.
 Qed.
 
 (* ------------------------------------------------ unwritten default *)
 
-Lemma unwritten_default_partial ops p :
-  guard (history (normalise p) ops) = true ->
+(* digital_read is the reference memory of the property after every history: the last
+   level written, else HIGH exactly while the current mode is INPUT_PULLUP, else LOW *)
+Lemma unwritten_default ops p :
   dread (exec ops) p = ref_dread (history (normalise p) ops).
-Proof.
-  intro G. rewrite dread_char. cbn zeta.
-  destruct (rel_exec (normalise p) ops) as [_ _ _ Hs].
-  unfold guard in G. unfold ref_dread.
-  destruct (h_dw (history (normalise p) ops)) as [b|]; [reflexivity|].
-  destruct (h_stale (history (normalise p) ops)) eqn:Est; cbn in G.
-  - rewrite G. reflexivity.
-  - destruct (mode_is_pullup (h_mode (history (normalise p) ops))) eqn:Em; [|reflexivity].
-    specialize (Hs eq_refl eq_refl). discriminate.
-Qed.
+Proof. apply dread_char. Qed.
 
-(* the guard is exact: outside it the code's answer differs from the property's *)
-Lemma guard_exact ops p :
-  dread (exec ops) p = ref_dread (history (normalise p) ops) <->
-  guard (history (normalise p) ops) = true.
-Proof.
-  split; [|apply unwritten_default_partial].
-  rewrite dread_char. cbn zeta. unfold guard, ref_dread.
-  destruct (h_dw (history (normalise p) ops)) as [b|]; [reflexivity|].
-  destruct (h_stale (history (normalise p) ops)); cbn; [|reflexivity].
-  destruct (mode_is_pullup (h_mode (history (normalise p) ops))); [reflexivity|].
-  unfold HIGH, LOW. discriminate.
-Qed.
-
-(* readable corollaries of the partial theorem *)
-Lemma never_pullup_reads_low ops p :
+(* an unwritten pin reads HIGH exactly while its current mode is INPUT_PULLUP *)
+Lemma unwritten_high_iff_pullup ops p :
   let h := history (normalise p) ops in
-  h_dw h = None -> h_stale h = false -> dread (exec ops) p = LOW.
+  h_dw h = None ->
+  (dread (exec ops) p = HIGH <-> mode_is_pullup (h_mode h) = true) /\
+  (dread (exec ops) p = LOW <-> mode_is_pullup (h_mode h) = false).
 Proof.
-  cbn zeta. intros Hd Hs. rewrite dread_char. cbn zeta. rewrite Hd, Hs. reflexivity.
+  cbn zeta. intro Hd. rewrite dread_char. unfold ref_dread. rewrite Hd.
+  destruct (mode_is_pullup (h_mode (history (normalise p) ops)));
+    unfold HIGH, LOW; repeat split; intro H; try reflexivity; discriminate.
+Qed.
+
+Lemma non_pullup_unwritten_reads_low ops p :
+  let h := history (normalise p) ops in
+  h_dw h = None -> mode_is_pullup (h_mode h) = false -> dread (exec ops) p = LOW.
+Proof.
+  cbn zeta. intros Hd Hm. rewrite dread_char. unfold ref_dread. rewrite Hd, Hm. reflexivity.
 Qed.
 
 Lemma pullup_unwritten_reads_high ops p :
   let h := history (normalise p) ops in
   h_dw h = None -> mode_is_pullup (h_mode h) = true -> dread (exec ops) p = HIGH.
 Proof.
-  cbn zeta. intros Hd Hm. rewrite unwritten_default_partial.
-  - unfold ref_dread. rewrite Hd, Hm. reflexivity.
-  - unfold guard. rewrite Hd, Hm. apply orb_true_r.
+  cbn zeta. intros Hd Hm. rewrite dread_char. unfold ref_dread. rewrite Hd, Hm. reflexivity.
 Qed.
 
+(* sandwich form, without [history] in the conclusion: whatever modes the pin went through
+   before (INPUT_PULLUP included), once pin_mode(p, m) has been called on a pin that no
+   digital_write ever addressed, and as long as no later call changes its mode, a read
+   through any alias returns HIGH iff m is INPUT_PULLUP *)
+Definition not_dwrite_or_mode_to (k : pin) (o : op) : Prop :=
+  match o with
+  | DWrite p _ | PinMode p _ => normalise p <> k
+  | _ => True
+  end.
+
+Lemma hist_keep_dw_mode k post : forall h,
+  Forall (not_dwrite_or_mode_to k) post ->
+  h_dw (fold_left (hstep k) post h) = h_dw h /\ h_mode (fold_left (hstep k) post h) = h_mode h.
+Proof.
+  induction post as [|o r IH]; intros h H; [split; reflexivity|].
+  inversion H as [|? ? H1 H2]; subst. cbn [fold_left].
+  destruct (IH (hstep k h o) H2) as [IHd IHm]. rewrite IHd, IHm.
+  unfold hstep. destruct (pin_eqb (normalise (op_pin o)) k) eqn:E; [|split; reflexivity].
+  apply pin_eqb_eq in E.
+  destruct o as [p m|p v|p v|p|p]; cbn [op_pin] in E; cbn in H1; try (split; reflexivity).
+  - contradiction.
+  - contradiction.
+  - destruct (analog_of v); split; reflexivity.
+Qed.
+
+Lemma hstep_pin_mode p m h :
+  hstep (normalise p) h (PinMode p m) = mkHist (h_dw h) (h_aw h) (Some m).
+Proof. unfold hstep. cbn [op_pin]. rewrite pin_eqb_refl. reflexivity. Qed.
+
+Lemma mode_decides_unwritten pre post p q m :
+  normalise q = normalise p ->
+  Forall (not_dwrite_to (normalise p)) pre ->
+  Forall (not_dwrite_or_mode_to (normalise p)) post ->
+  dread (exec (pre ++ PinMode p m :: post)) q = if is_pullup m then HIGH else LOW.
+Proof.
+  intros Hq Hpre Hpost. rewrite dread_char. unfold ref_dread. rewrite Hq.
+  unfold history. rewrite fold_left_app. cbn [fold_left].
+  rewrite hstep_pin_mode.
+  destruct (hist_keep_dw_mode _ _
+              (mkHist (h_dw (fold_left (hstep (normalise p)) pre hist0))
+                      (h_aw (fold_left (hstep (normalise p)) pre hist0)) (Some m)) Hpost)
+    as [Hd Hm].
+  rewrite Hd, Hm. cbn [h_dw h_mode mode_is_pullup].
+  rewrite (hist_keep_dw _ _ _ Hpre). reflexivity.
+Qed.
+
+(* the history of the former finding F-C20-pullup-stale *)
 Definition witness_ops : list op :=
   [PinMode (PinI 7) INPUT_PULLUP; PinMode (PinI 7) OUTPUT].
-
-Lemma pullup_then_output_refuted :
-  exists ops p,
-    let h := history (normalise p) ops in
-    h_dw h = None /\ h_mode h = Some OUTPUT /\ ref_dread h = LOW /\
-    dread (exec ops) p = HIGH /\
-    snd (run_from init (ops ++ [DRead p])) = [RNone; RNone; RVal HIGH].
-Proof. exists witness_ops, (PinI 7). vm_compute. repeat split. Qed.
 
 (* ---------------------------------------------- "7" and 7 are one pin *)
 
